@@ -419,3 +419,49 @@ def chart_object_follows_xml(a: int, b: int, c: int, pos: int, style: int) -> bo
     if expect_style is not None:
         ok = ok and chart.chart_style == expect_style
     return ok
+
+
+# ------------------------------------------------------------------ value-axis crossing: two properties over one choice in the XML
+from pptx.enum.chart import XL_AXIS_CROSSES  # noqa: E402
+
+CROSS_OPS = [("crosses", XL_AXIS_CROSSES.AUTOMATIC), ("crosses", XL_AXIS_CROSSES.MAXIMUM), ("crosses", XL_AXIS_CROSSES.MINIMUM),
+             ("crosses", XL_AXIS_CROSSES.CUSTOM), ("crosses_at", 2.5), ("crosses_at", -1.0), ("crosses_at", None)]
+
+
+@cond(timeout=600, encodes=["pptx.chart.axis:ValueAxis.crosses", "pptx.chart.axis:ValueAxis.crosses_at", "pptx.chart.axis:ValueAxis._cross_xAx"],
+      bound="bar chart, value axis; sequences of 2 (quick; a third step fixed to crosses_at = None) / 3 (thorough) assignments out of 7 (crosses = AUTOMATIC / "
+            "MAXIMUM / MINIMUM / CUSTOM, crosses_at = 2.5 / -1.0 / None): after every step crosses and crosses_at read as the documented "
+            "state machine says (a non-custom member clears the number; CUSTOM keeps an existing number, else 0.0; a number means CUSTOM), "
+            "a fresh proxy over the same XML reads the same, and the axis holds at most one of c:crosses / c:crossesAt")
+def axis_crossing_sequence(a: int, b: int, c: int) -> bool:
+    """
+    pre: 0 <= a < len(CROSS_OPS) and 0 <= b < len(CROSS_OPS) and (0 <= c < len(CROSS_OPS) if THOROUGH else c == 6)
+    post: _
+    """
+    cs = copy.deepcopy(_CHARTSPACE)
+    chart = Chart(cs, None)
+    axis = chart.value_axis
+    mode, at = axis.crosses, axis.crosses_at
+    for op in (a, b, c):
+        name, value = choose(CROSS_OPS, op)
+        setattr(axis, name, value)
+        if name == "crosses":
+            if value is XL_AXIS_CROSSES.CUSTOM:
+                if at is None:
+                    mode, at = value, 0.0
+            else:
+                mode, at = value, None
+        else:
+            mode, at = XL_AXIS_CROSSES.CUSTOM, value
+        fresh_chart = Chart(cs, None)
+        fresh = fresh_chart.value_axis
+        if axis.crosses != mode or axis.crosses_at != at or fresh.crosses != mode or fresh.crosses_at != at:
+            detail(globals(), "after %s=%r: crosses=%r crosses_at=%r, expected %r %r", name, value, axis.crosses, axis.crosses_at, mode, at)
+            return False
+        cross = axis._cross_xAx
+        if len(cross.xpath("./c:crosses")) + len(cross.xpath("./c:crossesAt")) > 1:
+            return False
+    return True
+
+
+LAST_DETAIL = None
